@@ -135,7 +135,11 @@ def _dig(sim):
     lab = getattr(sim, "labels", None)
     out["labels"] = None if lab is None else [int(x) for x in lab]
     d = getattr(sim, "data", None)
-    out["finite"] = bool(d is not None and all(np.isfinite(np.asarray(c.values, dtype=float)).all() for c in (d.data if hasattr(d, "data") else [d])))
+    def _fin(x):
+        return bool(x is not None and all(np.isfinite(np.asarray(c.values, dtype=float)).all() for c in (x.data if hasattr(x, "data") else [x])))
+
+    out["finite"] = _fin(d)
+    out["finite_noisy"] = _fin(getattr(sim, "noisy_data", None)) if getattr(sim, "noisy_data", None) is not None else None
     return out
 
 
@@ -270,6 +274,7 @@ def gen_cases(rng: Rng, tier):
         nf = {"kl": spec["K"], "kl2d": 4, "klmulti": spec["K"], "klmixed": 4}[shape]
         opt = rng.choice(["default", "centers", "cstd_name", "cstd_array", "both"])
         c = dict(kind="kl", spec=spec, n_obs=n_obs, n_clusters=kc, opt=opt, seeded=rng.random() < 0.7,
+                 post=rng.choice([[], ["sparse"], ["comb"], ["noise", "sparse"], ["comb", "noise"], ["sparse", "comb"]]),
                  Z=[[rs(x) for x in rng.dyadics(nf, -2, 2, 2)] for _ in range(n_obs)])
         if opt in ("centers", "both"):
             c["centers"] = [[rs(x) for x in rng.dyadics(kc, -3, 3, 1)] for _ in range(nf)]
@@ -284,6 +289,7 @@ def gen_cases(rng: Rng, tier):
         span = rng.choice([Fraction(1), Fraction(4), Fraction(1, 4)])
         n_obs = rng.randint(1, 3)
         c = dict(kind="bm", name=name, m=m, t0=rs(rng.choice([0, -1, 2])), span=rs(span), n_obs=n_obs, seeded=rng.random() < 0.7,
+                 post=rng.choice([[], ["sparse"], ["comb"], ["noise", "sparse"], ["comb", "noise"]]),
                  init=rs(rng.choice([Fraction(0), Fraction(1), Fraction(-3, 2), Fraction(5, 2), Fraction(1, 4)])),
                  default_init=rng.random() < 0.25,
                  gdtype=rng.choice(["float64", "float64", "int64", "int64", "int32"]), istart=rng.choice([0, -3, 10]), istep=rng.choice([1, 2, 5]),
@@ -295,17 +301,21 @@ def gen_cases(rng: Rng, tier):
     for _ in range(ng):
         m = rng.randint(2, 8)
         h = rng.choice([Fraction(1, 4), Fraction(1, 8), Fraction(1), Fraction(3, 16)])
-        t = [Fraction(rng.choice([0, -1, 5])) + i * h for i in range(m)]
-        mode = rng.choice(["regular", "perturbed_big", "perturbed_tiny", "one_off"])
+        # offsets over many decades: years, days since an epoch, unix seconds, 2^20, 2^30
+        off = rng.choice([0, -1, 5, 0, 2000, 36000, 2**20, 10**6, 1700000000, 2**30, -(10**5)])
+        if off >= 10**3 or off <= -(10**3):
+            h = rng.choice([Fraction(1), Fraction(1, 4), Fraction(5), Fraction(1, 8)])
+        t = [Fraction(off) + i * h for i in range(m)]
+        mode = rng.choice(["regular", "perturbed_big", "perturbed_tiny", "one_off", "perturbed_big"])
         if mode == "perturbed_big" and m >= 3:
             j = rng.randint(1, m - 1)
             t[j] += h * Fraction(1, rng.choice([4, 64, 1024]))
         elif mode == "perturbed_tiny" and m >= 3:
             j = rng.randint(1, m - 1)
-            t[j] += Fraction(1, 2**36)
+            t[j] += h * Fraction(1, 2**22)  # relative to the step: far below rtol = 1e-5
         elif mode == "one_off" and m >= 3:
             t[-1] += h
-        yield dict(kind="grid", t=[rs(x) for x in t], mode=mode, name=rng.choice(["standard", "geometric", "fractional"]))
+        yield dict(kind="grid", t=[rs(x) for x in t], mode=mode, offset=str(off), name=rng.choice(["standard", "geometric", "fractional"]))
 
 
 def search_cases(rng, tier):
@@ -399,6 +409,29 @@ def _impl_eig(case):
     return out
 
 
+def _post_ops(sim, case, seed):
+    """Operations run after the scripted `new` (genuine generator): the structure of `data` is
+    read afterwards, so it must survive them."""
+    ran = []
+    g_changed = False
+    if case.get("post"):
+        sim.random_state = None if seed is None else np.random.default_rng(seed)
+        g0 = _gstate()
+        for op in case["post"]:
+            try:
+                if op == "noise":
+                    sim.add_noise(noise_variance=0.5)
+                elif op == "sparse":
+                    sim.sparsify(percentage=0.5, epsilon=0.2)
+                else:
+                    sim.add_noise_and_sparsify(noise_variance=0.5, percentage=0.6, epsilon=0.1)
+                ran.append(op + ":ok")
+            except Exception as e:  # noqa: BLE001
+                ran.append(op + ":" + err_class(e))
+        g_changed = seed is not None and g0 != _gstate()
+    return dict(ran=ran, glob_changed=g_changed)
+
+
 class _ScriptMVN:
     """Scripted `multivariate_normal(mean, cov, size)`: mean + sqrt(diag(cov)) * next rows of Z."""
 
@@ -444,10 +477,11 @@ def _impl_kl(case):
     finally:
         if saved is not None:
             np.random.multivariate_normal = saved
+    post = _post_ops(sim, case, 3 if case["seeded"] else None)
     multi = isinstance(sim.data, MultivariateFunctionalData)
     comps = list(sim.data.data) if multi else [sim.data]
     bcomps = list(sim.data_basis.data) if multi else [sim.data_basis]
-    out = dict(status="ok", calls=stub.calls, labels=[int(x) for x in sim.labels], glob_changed=g0 != _gstate(),
+    out = dict(status="ok", calls=stub.calls, labels=[int(x) for x in sim.labels], glob_changed=post["glob_changed"] if post["ran"] else g0 != _gstate(), post=post["ran"],
                eigenvalues=[float(x) for x in np.asarray(sim.eigenvalues).ravel()], comps=[])
     for c, b in zip(comps, bcomps):
         vals = np.asarray(c.values, dtype=float)
@@ -527,9 +561,10 @@ def _impl_bm(case):
         BR._simulate_brownian = orig
         if saved is not None:
             np.random.normal = saved
+    post = _post_ops(sim, case, 5 if case["seeded"] else None)
     delta = (np.max(t) - np.min(t)) / np.size(t)
-    out = dict(status="ok", values=np.asarray(sim.data.values, dtype=float).tolist(), sd=float(np.sqrt(delta)), delta=float(delta),
-               n_calls=len(stub.calls), glob_changed=g0 != _gstate(), grid_same=bool(np.array_equal(sim.data.argvals["input_dim_0"], t)))
+    out = dict(status="ok", post=post["ran"], values=np.asarray(sim.data.values, dtype=float).tolist(), sd=float(np.sqrt(delta)), delta=float(delta),
+               n_calls=len(stub.calls), glob_changed=post["glob_changed"] if post["ran"] else g0 != _gstate(), grid_same=bool(np.array_equal(sim.data.argvals["input_dim_0"], t)))
     if name == "geometric":
         init = kw.get("init_point", 1.0)
         const = case["mu"] - case["sigma"] ** 2 / 2
@@ -774,6 +809,7 @@ def oracle(case, impl):
                "bmf": "Brownian", "ds": "Datasets"}[spec["kind"]]
         meth = {"new": "new", "noise": "add_noise", "sparse": "sparsify", "comb": "add_noise_and_sparsify"}
         prev_new = None
+        prev_dig = {}
         for ci, (call, rec) in enumerate(zip(case["calls"], impl["recs"])):
             entry = f"{cls}.{meth[call['op']]}"
             a, b = rec["a"], rec["b"]
@@ -789,6 +825,19 @@ def oracle(case, impl):
                     if r["glob_changed"]:
                         bad("global_untouched", entry, f"call {ci} ({call['op']}): the seeded {nm} simulator advanced the legacy global generator", ["global_generator_used"])
                         break
+            # the structure advertised for `data` (and for the noisy curves) must survive the later operations:
+            # only `new` may change `data`, only the noise operations may change `noisy_data`
+            for r, nm in ((a, "first"), (b, "second")):
+                prev = prev_dig.get(nm)
+                if prev is not None:
+                    if call["op"] != "new" and r["dig"]["data"] != prev["data"]:
+                        bad("structure_after_operations", entry, f"call {ci} ({call['op']}): the simulated `data` of the {nm} simulator changed "
+                            f"(finite before: {prev.get('finite')}, after: {r['dig'].get('finite')}) — they are no longer what `new` built", ["data_changed_by_later_op"])
+                    if call["op"] in ("new", "sparse") and r["dig"]["noisy_data"] != prev["noisy_data"]:
+                        bad("structure_after_operations", entry, f"call {ci} ({call['op']}): `noisy_data` of the {nm} simulator changed", ["data_changed_by_later_op"])
+                if call["op"] in ("noise", "comb") and r["dig"].get("finite") and r["dig"].get("finite_noisy") is False:
+                    bad("structure_after_operations", entry, f"call {ci} ({call['op']}): noisy curves of finite data contain NaN", ["data_changed_by_later_op"])
+                prev_dig[nm] = r["dig"]
             if call["op"] == "new" and a["status"] == "ok":
                 if prev_new is not None and prev_new == a["dig"]["data"] and call["n_obs"] > 0 and a["dig"].get("finite"):
                     bad("successive_differ", entry, f"call {ci}: two successive draws of one simulator are identical")
@@ -940,7 +989,7 @@ def classify(case, impl):
     elif case["kind"] == "bm":
         tags += ["bm:" + case["name"], "status:" + impl["status"].split(":")[0], "grid_dtype:" + case.get("gdtype", "float64")]
     elif case["kind"] == "grid":
-        tags += ["grid:" + case["mode"], "status:" + impl["status"].split(":")[0]]
+        tags += ["grid:" + case["mode"], "status:" + impl["status"].split(":")[0], "grid_offset:" + ("small" if abs(int(case.get("offset", "0"))) < 1000 else "large")]
     elif case["kind"] == "eig":
         tags += ["eig:" + case["name"]]
     return tags
